@@ -19,6 +19,7 @@ mod c_simplify;
 mod c_reuse;
 mod c_bytecode;
 mod c_total;
+mod c_context;
 mod helpers;
 
 use common::Report;
@@ -103,6 +104,7 @@ pub fn run(contract: &str, thorough: bool, seed: u64) -> Report {
         "reuse" => c_reuse::reuse(thorough),
         "bytecode" => c_bytecode::bytecode(thorough, seed),
         "total" => c_total::total(thorough, seed),
+        "context_rewrites" => c_context::context_rewrites(thorough),
         _ => {
             eprintln!("unknown contract {contract}");
             std::process::exit(2);
@@ -122,6 +124,7 @@ fn replay(v: &serde_json::Value) -> i32 {
         "reuse" => c_reuse::replay(v),
         "bytecode" => c_bytecode::replay(v),
         "total" => c_total::replay(v),
+        "context_rewrites" => c_context::replay(v),
         _ => {
             eprintln!("no replay for contract {contract}");
             return 2;
